@@ -20,7 +20,7 @@ import os
 
 import z3
 
-REPO = "/repo"
+REPO = os.environ.get("VERIF_REPO", "/repo")      # /repo for every registered command; scratch worktrees only for the seeded-change matrix
 
 
 class Unsupported(Exception):
